@@ -189,16 +189,24 @@ Section Groups.
     - exact I.
   Qed.
 
-  Lemma relationships_perm gs gs' : Permutation gs gs' ->
-    rel_res eq (add_relationships names gs) (add_relationships names gs').
+  Lemma read_groups_perm gs gs' : Permutation gs gs' ->
+    rel_res eq (read_groups names gs) (read_groups names gs').
   Proof.
-    intros P. unfold add_relationships.
+    intros P. unfold read_groups.
     assert (H : RP (map (fun _ : Z => @None Z) names) (map (fun _ : Z => @None Z) names)).
     { split; auto. apply map_length. }
     pose proof (foldM_perm RP (group_step names) RP_sym RP_trans group_congr group_comm gs gs' P _ _ H) as Q.
     set (i0 := map (fun _ : Z => @None Z) names) in *.
     destruct (foldM (group_step names) gs i0), (foldM (group_step names) gs' i0); cbn in Q |- *; auto;
       try contradiction. destruct Q; auto.
+  Qed.
+
+  Lemma relationships_perm gs gs' : Permutation gs gs' ->
+    rel_res eq (add_relationships names gs) (add_relationships names gs').
+  Proof.
+    intros P. unfold add_relationships. pose proof (read_groups_perm gs gs' P) as Q.
+    destruct (read_groups names gs) as [ps| |], (read_groups names gs') as [ps'| |]; cbn in Q |- *;
+      try contradiction; try exact I. subst ps'. destruct (check_forest names ps) as [[]| |]; cbn; auto.
   Qed.
 End Groups.
 
@@ -836,29 +844,28 @@ Proof.
       auto; discriminate.
 Qed.
 
-Lemma ends_swap_guard mc ue us cs gs l1 k l2 :
-  (forall names vars ps, add_components (mkDoc mc ue us cs gs (l1 ++ k :: l2)) = OK (names, vars) ->
-     add_relationships names gs = OK ps -> mutual_b names ps (k_c1 k) (k_c2 k) = false) ->
-  load (mkDoc mc ue us cs gs (l1 ++ swap_conn k :: l2)) = load (mkDoc mc ue us cs gs (l1 ++ k :: l2)).
+(* a hierarchy that passed the forest check has no two components that are each other's parent *)
+Lemma forest_no_mutual names gs ps c1 c2 : add_relationships names gs = OK ps -> mutual_b names ps c1 c2 = false.
 Proof.
-  intros G. apply ends_swap_guarded. intros names vars ps A B p Hp.
-  unfold conn_pairs in Hp. apply in_map_iff in Hp. destruct Hp as (m & <- & _). cbn.
-  apply direction_sym. eapply G; eauto.
+  intros H. apply add_relationships_ok in H. destruct H as (_ & F).
+  unfold mutual_b. destruct (optZ_eqb (parent_of names ps c1) (parent_of names ps c2)); [reflexivity|].
+  cbn [negb andb]. destruct (optZ_eqb (Some c1) (parent_of names ps c2)) eqn:E1; [|reflexivity].
+  destruct (optZ_eqb (Some c2) (parent_of names ps c1)) eqn:E2; [|reflexivity]. exfalso.
+  destruct (parent_of names ps c2) as [p2|] eqn:P2; cbn in E1; [|discriminate]. apply Z.eqb_eq in E1. subst p2.
+  destruct (parent_of names ps c1) as [p1|] eqn:P1; cbn in E2; [|discriminate]. apply Z.eqb_eq in E2. subst p1.
+  assert (Hc : In c1 names).
+  { unfold parent_of in P1. destruct (cidx names c1) eqn:C; [|discriminate]. eapply cidx_some_in; eauto. }
+  apply (check_forest_ok _ _ F c1 1%nat Hc). rewrite P1. cbn. exact P2.
 Qed.
 
-(* without the guard the claim is false: two groups that make A the parent of B and B the parent of A (a cycle in
-   the encapsulation hierarchy, which the loader does not refuse); A.x private out, B.x public in: the connection
-   written A-B is resolved with A as the parent, written B-A with B as the parent and then names no direction *)
-Definition refute_doc (swap : bool) : doc :=
-  let k := mkConn 10 11 [(20, 20)] in
-  mkDoc None None [(1, [])]
-        [mkComp 10 [mkDVar 20 1 None INone IOut None] [] false false;
-         mkComp 11 [mkDVar 20 1 None IIn INone None] [] false false]
-        [mkGroup [0%Z] [CRef 10 [CRef 11 []]]; mkGroup [0%Z] [CRef 11 [CRef 10 []]]]
-        [if swap then swap_conn k else k].
-
-Lemma ends_swap_refuted : exists f e, load (refute_doc false) = OK f /\ load (refute_doc true) = Error e.
-Proof. do 2 eexists. split; vm_compute; reflexivity. Qed.
+(* FULL STRENGTH: the two spellings of a connection give the identical result, an error or the identical model *)
+Theorem ends_swap mc ue us cs gs l1 k l2 :
+  load (mkDoc mc ue us cs gs (l1 ++ swap_conn k :: l2)) = load (mkDoc mc ue us cs gs (l1 ++ k :: l2)).
+Proof.
+  apply ends_swap_guarded. intros names vars ps A B p Hp.
+  unfold conn_pairs in Hp. apply in_map_iff in Hp. destruct Hp as (m & <- & _). cbn.
+  apply direction_sym. eapply forest_no_mutual; eauto.
+Qed.
 
 (* order_added follows the document: components in document order, variables in declaration order *)
 Lemma component_order d f : load d = OK f -> f_vars f = flat_map (comp_vars d) (d_comps d).
